@@ -1,6 +1,7 @@
 package main
 
 import (
+	"sort"
 	"fmt"
 	"go/constant"
 	"go/token"
@@ -502,24 +503,73 @@ func ruleGENENUM(p *Program, r *Reporter) {
 		r.Anchor(id, "modelgen.fieldType / enumName")
 		return
 	}
-	flag := fn.Params[3]
-	n := 0
-	for _, b := range fn.Blocks {
-		for _, ins := range b.Instrs {
-			c, ok := ins.(*ssa.Call)
-			if !ok || c.Call.StaticCallee() != en {
+	aliasFld := p.Field("modelgen", "Enum", "Alias")
+	// the flag and its copies in private helpers: a helper parameter that receives the flag at every call site
+	flags := map[*ssa.Function]map[ssa.Value]bool{fn: {fn.Params[3]: true}}
+	region := p.PrivateRegion(fn)
+	ci := getCallIndex(p)
+	for changed := true; changed; {
+		changed = false
+		for g := range region {
+			if g == fn || g.Parent() != nil {
 				continue
 			}
-			n++
-			ok2 := false
-			for _, f := range factsAt(b) {
-				cond, truth := normFact(f)
-				if cond == ssa.Value(flag) && truth {
-					ok2 = true
+			for i, prm := range g.Params {
+				if flags[g][prm] || !types.Identical(prm.Type(), types.Typ[types.Bool]) {
+					continue
+				}
+				all, any := true, false
+				for _, s := range ci.sites[g] {
+					c, ok := s.instr.(ssa.CallInstruction)
+					if !ok || i >= len(c.Common().Args) || !flags[s.caller][c.Common().Args[i]] {
+						all = false
+					}
+					any = true
+				}
+				if all && any {
+					if flags[g] == nil {
+						flags[g] = map[ssa.Value]bool{}
+					}
+					flags[g][prm] = true
+					changed = true
 				}
 			}
-			r.Ob(id, funcName(fn), "enum alias only with enum types on", c.Pos(), ok2, true,
-				ifs(ok2, "the alias name is only used where enumTypes is true", "fieldType names the enum alias although enum types are switched off: the generated struct refers to a type that is never emitted and does not compile"))
+		}
+	}
+	n := 0
+	var fns []*ssa.Function
+	for g := range region {
+		fns = append(fns, g)
+	}
+	sort.Slice(fns, func(i, j int) bool { return fns[i].Pos() < fns[j].Pos() })
+	for _, g := range fns {
+		for _, b := range g.Blocks {
+			for _, ins := range b.Instrs {
+				isSource := false
+				switch x := ins.(type) {
+				case *ssa.Call:
+					isSource = x.Call.StaticCallee() == en
+				case *ssa.FieldAddr:
+					isSource = aliasFld != nil && fieldOfAddr(x) == aliasFld
+				case *ssa.Field:
+					if st, ok := x.X.Type().Underlying().(*types.Struct); ok && aliasFld != nil {
+						isSource = st.Field(x.Field) == aliasFld
+					}
+				}
+				if !isSource {
+					continue
+				}
+				n++
+				ok2 := false
+				for _, f := range factsAt(b) {
+					cond, truth := normFact(f)
+					if flags[g][cond] && truth {
+						ok2 = true
+					}
+				}
+				r.Ob(id, funcName(g), "enum alias only with enum types on", ins.Pos(), ok2, true,
+					ifs(ok2, "the alias name is only used where enumTypes is true", "fieldType names the enum alias although enum types are switched off: the generated struct refers to a type that is never emitted and does not compile"))
+			}
 		}
 	}
 	if n < 1 {
